@@ -72,6 +72,33 @@ pub fn convert_itemset(
     Ok(out)
 }
 
+/// As `convert_itemset`, keeping the (production, dot) -> lookahead set shape (sets may be empty).
+pub fn convert_itemset_sets(b: &Built<u32>, flat: &lr1::Flat, stidx: StIdx<u32>, closed: bool) -> Result<BTreeMap<(usize, usize), BTreeSet<usize>>, String> {
+    let is = if closed { b.sg.closed_state(stidx) } else { b.sg.core_state(stidx) };
+    let mut out = BTreeMap::new();
+    let ntok = usize::from(b.grm.tokens_len());
+    for ((pidx, dot), ctx) in is.items.iter() {
+        let fp = if *pidx == b.grm.start_prod() {
+            flat.aug
+        } else {
+            let (r, k) = b.ag_prod(*pidx).ok_or_else(|| format!("item of unknown production {}", usize::from(*pidx)))?;
+            flat.rule_prods[r][k]
+        };
+        let mut las = BTreeSet::new();
+        for t in 0..ntok {
+            if vob_get(ctx, t) {
+                las.insert(if TIdx(t as u32) == b.grm.eof_token_idx() {
+                    flat.eof
+                } else {
+                    b.ag_token(TIdx(t as u32)).ok_or_else(|| format!("lookahead of unknown token {t}"))?
+                });
+            }
+        }
+        out.insert((fp, usize::from(*dot)), las);
+    }
+    Ok(out)
+}
+
 fn pidx_key(b: &Built<u32>, p: PIdx<u32>) -> (usize, usize) {
     (usize::from(b.grm.prod_to_rule(p)), b.grm.prod(p).len())
 }
@@ -84,7 +111,7 @@ impl Prop for C16 {
         300
     }
     fn cases(&self, tier: Tier) -> u32 {
-        tier.pick(40_000, 1_000_000)
+        tier.pick(500_000, 8_000_000)
     }
     fn decode(&self, choices: &[u32], tier: Tier) -> Value {
         let mut ch = Choices::new(choices);
@@ -289,19 +316,20 @@ impl Prop for C16 {
                 }
             }
             // closed state == LR(1) closure of the core state
-            match (
-                convert_itemset(&b, &flat, s, false),
-                convert_itemset(&b, &flat, s, true),
-            ) {
+            match (convert_itemset_sets(&b, &flat, s, false), convert_itemset_sets(&b, &flat, s, true)) {
                 (Ok(core), Ok(closed)) => {
-                    let exp = lr1::closure1(&flat, &fi, &core);
+                    let exp = lr1::closure_sets(&flat, &fi, &core);
+                    if closed.values().any(|l| l.is_empty()) {
+                        // only with unproductive rules: the textbook closure would stop here
+                        o.class("closure:item-with-empty-lookahead-set");
+                    }
                     if exp != closed {
-                        let missing: Vec<_> = exp.difference(&closed).take(4).collect();
-                        let extra: Vec<_> = closed.difference(&exp).take(4).collect();
+                        let missing: Vec<_> = exp.iter().filter(|(k, v)| closed.get(*k) != Some(*v)).take(4).collect();
+                        let extra: Vec<_> = closed.iter().filter(|(k, v)| exp.get(*k) != Some(*v)).take(4).collect();
                         o.fail(
                             "wrong",
                             "C16/closed-state-not-closure",
-                            format!("state {si}: closed state differs from the closure of its core: missing {missing:?}, extra {extra:?} (prod,dot,lookahead)\n{}", src()),
+                            format!("state {si}: closed state differs from the closure of its core: expected {missing:?}, got {extra:?} ((prod,dot): lookaheads); core {core:?}\n{}", src()),
                         );
                         return o;
                     }
